@@ -81,6 +81,7 @@ pub fn run_case(case: &mut Case) {
     o.alts = false;
     o.decor = false;
     o.strict = true;
+    o.any_after_strict = true;
     o.types = vec![Ty::Str, Ty::Os, Ty::Str, Ty::U32, Ty::Path];
     let spec = {
         let mut p = Pool::new(&mut rng, o);
